@@ -513,6 +513,10 @@ def c03(ctx):
              "the sign of zero) is turned into text -- a number's text is the f64's own Display (rule shared with C08.R6 / C18.R6)")
     from .c18 import text_from_cast_rule
     text_from_cast_rule(ctx, "C03.R8", scope=lambda fn: fn.file.startswith("src/exec/"), min_fns=60)
+    rep.rule("C03.R10", "the string/number cell of equality and ordering reads the string with `str::parse::<f64>` applied to the string itself (no "
+             "trimming: a padded numeric string is not a number) -- rule shared with C07.R10")
+    from .c07 import string_to_number_rule as _s2n
+    _s2n(ctx, "C03.R10")
     rep.rule("C03.R9", "string * number: the sign of the count is tested on the number itself -- in Val::multiply every float-to-integer "
              "conversion (which truncates towards zero and maps NaN to 0) is executed only on the true edge of a comparison of that same "
              "float with 0 (`b >= 0.0`), so a count in (-1, 0) or NaN gives mysterious like every other negative count, not the empty string")
